@@ -17,7 +17,7 @@ checks = [
  ("C06","ledger","exploration","§5 C06","exact-rational oracle over exhaustively enumerated portion vectors × totals, observed as credits/debits of single-allotment scripts",
   "Exhaustive for every composition of every denominator ≤ 12 (thorough ≤ 24) into 2–4 clauses × totals 0..60 (0..200), both sides, with and without `remaining`; random beyond (10^40 totals, every number of decimals 1..40, word-boundary terms, terms beyond a machine word used twice, variables, bad sums incl. nested under zero shares, second runs of one parse result with other portion values)."),
  ("C07","ledger","exploration","§5 C07","reference FIFO-pairing monitor on the full source×destination flow matrix + interpreter.Reconcile driven directly on enumerated sender/receiver lists",
-  "Exploration + exhaustive small scope (all sender/receiver lists up to length 3 (thorough 4), amounts 1..3, kept anywhere) directly against Reconcile."),
+  "Exploration + exhaustive small scope (all sender/receiver lists up to length 3 (thorough 4), amounts 1..3, kept anywhere) directly against Reconcile; allotments whose `remaining` clause stands at any position (strata rem-anywhere*)."),
  ("C08","ledger","exploration","§5 C08","reference-model monitor (save rule) over systematic statement sequences × balances + save-heavy random scripts",
   "All sequences of length ≤ 3 over a 15-statement alphabet (saves of every kind, sends from/to the saved account, overdraft, send-all) × 5 balances, plus random."),
  ("C09","ledger","exploration","§5 C09","metamorphic monitor over real executions: whole script vs. every split into two runs on balances updated by the first run's real postings and the save rule",
@@ -27,7 +27,7 @@ checks = [
  ("C11","ledger","exploration","§5 C11","Go race detector (-race build) over goroutines sharing one ParseResult/vars/StaticStore + repetition, purity (deep before/after renderings) and flag monitors",
   "Race detector on a -race build with concurrent runs sharing every input the API lets callers share; yields injected at the store boundary (the only suspension point). Happens-before detection does not need the bad interleaving to occur, only both accesses."),
  ("C12","ledger","fault_enumeration","§5 C12","fault injection: single planted fault with class oracle; store failure injected at EVERY call index k ≤ N; crash guard + atomicity on ill-typed scripts",
-  "Fault enumeration: for each generated script the number N of store calls is measured and all N single-call failures are injected; planted static/dynamic faults carry the expected error class."),
+  "Fault enumeration: for each generated script the number N of store calls is measured and all N single-call failures are injected; planted static/dynamic faults carry the expected error class; zero-denominator literals in 12 spellings at 6 positions."),
  ("C13","ledger","exploration","§5 C13","hand-written base-ten oracle over exhaustively enumerated portion texts (literal and variable form, two observation channels) + metadata round-trip monitor over two executions",
   "Exhaustive for digit strings ≤ 2 (thorough ≤ 3) and percentages |p| ≤ 3, |q| ≤ 2 (3); random long numerals; round trips of all six types."),
  ("C14","parse","exploration","§5 C14","crash guard + watchdog + independent CFG recogniser (over the generated lexer's tokens) as validity oracle; every prefix, token/byte mutants, soups",
@@ -39,7 +39,7 @@ checks = [
  ("C17","analysis","exploration","§5 C17","implication monitor over (static check, execution) pairs of the same text after one type-breaking edit, control = unedited script checks clean and runs",
   "Exploration; error classes taken from the dynamic type of the returned error."),
  ("C18","analysis","exploration","§5 C18","crash guard + watchdog over CheckSource ×2, GetSymbols, HoverOn and GotoDefinition at every cursor position; geometric check of diagnostics; set comparison of two analyses",
-  "Exploration over the C14 text family (every prefix of generated scripts, token/byte damage, soups)."),
+  "Exploration over the C14 text family (every prefix of generated scripts, token/byte damage, soups) plus portion literals with zero parts at every position a value can be written."),
  ("C19","lsp","exploration","§5 C19","history monitor: every response and published notification compared with a fresh server holding only the latest text (unique version markers); navigation monitor at every cursor position against the generator's own knowledge",
   "Exhaustive for histories of length ≤ 3 (thorough ≤ 4) over a 48-operation alphabet (incl. change notifications without content changes); random long histories; sequential histories are the whole space (single server loop). Published diagnostics and symbol answers are also compared with analysis.CheckSource of the latest text; navigation is checked in damaged documents against the parser's own tree of the damaged text."),
  ("C20","cli","exploration","§5 C20","process monitor: the built binary's exit status / stdout / stderr compared with the in-process library on the same inputs through three input channels",
